@@ -6,7 +6,7 @@ from ..automat_x import Program, output_call_names, output_calls
 from ..astutil import (dotted, const, NOCONST, params, local_defs, OPAQUE, is_self_attr, calls_named, resolve_local,
                        same_expr, enclosing_function, enclosing_class)
 from ..dataflow import expand, call_arg, is_call_to, uses_of, reaches
-from ..effects import class_writers, is_const
+from ..effects import class_writers, is_const, is_empty_ctor
 from ..cfg import build, truthy_atom
 from ..tablerules import row_calls
 from .. import a3common
@@ -405,6 +405,13 @@ def r5_r6(tree, prog, rep):
     rep.check("C01.R6", "decrypt_data returns SecretBox(key).decrypt(encrypted) and lets CryptoError escape", ok, site(dd, KEY),
               key="C01.R6:decrypt_data")
     decrypt_raises_only_cryptoerror(tree, rep, "C01.R6")
+    # messages held until the key exists are all judged once it does (none is dropped when the buffer is emptied)
+    gm_appends = [c.func.value.attr for c in ast.walk(gm) if isinstance(c, ast.Call) and isinstance(c.func, ast.Attribute)
+                  and c.func.attr == "append" and is_self_attr(c.func.value)]
+    for attr in sorted(set(gm_appends)):
+        held_buffer_drained(tree, rep, "C01.R6", prog, "Receive", attr,
+                            "messages that arrived before the key existed are dropped instead of being decrypted once the key is known: "
+                            "a peer with a wrong code is never reported (LonelyError instead of WrongPasswordError), a good peer's message is lost")
     B = prog.machine("Boss")
     hrows = [r for r in B.rows_on("happy") if r.src != r.enter]
     hs = {r.enter for r in hrows}
@@ -429,6 +436,73 @@ def r5_r6(tree, prog, rep):
                 vals += assigns_in_output(B, o, "_result")
             ok = len(vals) == 1 and isinstance(vals[0], ast.Call) and (dotted(vals[0].func) or "").split(".")[-1] == "WrongPasswordError"
             rep.check("C01.R6", "Boss %s.scared closes with WrongPasswordError" % r.src, ok, r.site, key="C01.R6:Boss[%s].scared" % r.src)
+
+
+def held_buffer_drained(tree, rep, rule, prog, cname, attr, what):
+    """a hold buffer (`self.<attr>`, filled with append) is never emptied without every element being handed on: each function
+    that resets it walks the OLD content completely - either a loop over the attribute that precedes the reset, or a loop over
+    a local that was bound to the attribute before the reset (the swap idiom) - or takes the elements one by one from the front"""
+    ci = prog.cls(cname)
+    own, foreign = class_writers(tree, cname, attr)
+    ctor = ("__init__", "__attrs_post_init__")
+    resets = [w for w in own + foreign if w.fn not in ctor and (
+        (w.kind in ("assign", "setslice") and is_empty_ctor(w.value, ("list", "deque"))) or w.kind == "call:clear")]
+    takers = [w for w in own if w.kind in ("call:popleft", "call:pop")]
+    if not resets and not takers:
+        raise AnalysisError("%s.%s is never drained" % (cname, attr))
+
+    def strip(e):
+        while isinstance(e, ast.Call) and isinstance(e.func, ast.Name) and e.func.id in ("list", "tuple", "iter") and len(e.args) == 1:
+            e = e.args[0]
+        return e
+
+    def stmt_of(node):
+        while node is not None and not isinstance(node, ast.stmt):
+            node = getattr(node, "_parent", None)
+        return node
+
+    for fname in sorted({w.fn for w in resets}):
+        fn = ci.func(fname)
+        if fn is None:
+            rep.check(rule, "%s.%s is emptied in %s" % (cname, attr, fname), False, ci.file, key="%s:%s.%s:drained:%s" % (rule, cname, attr, fname),
+                      what=what)
+            continue
+        g = build(fn)
+        reset_nodes = [n for n in (g.node_of(stmt_of(w.node)) for w in resets if w.fn == fname) if n is not None]
+        ok = False
+        for loop in [n for n in ast.walk(fn) if isinstance(n, ast.For)]:
+            ln = g.node_of(loop)
+            if ln is None:
+                continue
+            it = strip(loop.iter)
+            src_ok = False
+            if is_self_attr(it, attr):
+                src_ok = not g.reaches_after(reset_nodes, [ln])         # no reset can happen before the walk starts
+            elif isinstance(it, ast.Name):
+                defs = local_defs(fn, it.id)
+                if len(defs) == 1 and defs[0] is not OPAQUE and is_self_attr(strip(defs[0]), attr):
+                    dn = g.node_of(stmt_of(defs[0]))
+                    src_ok = dn is not None and not g.reaches_after(reset_nodes, [dn]) and not g.precedes([dn], [ln])
+            complete = not any(isinstance(x, (ast.Break, ast.Return)) for b in loop.body for x in ast.walk(b))
+            tnames = {x.id for x in ast.walk(loop.target) if isinstance(x, ast.Name)}
+            used = any(isinstance(c, ast.Call) and any(isinstance(a, ast.Name) and a.id in tnames for aa in c.args for a in ast.walk(aa))
+                       for b in loop.body for c in ast.walk(b))
+            ok = ok or (src_ok and complete and used)
+        rep.check(rule, "%s.%s empties self.%s only while handing every held element on (a complete walk over the old content)" % (cname, fname, attr),
+                  ok, site(fn, ci.file), key="%s:%s.%s:drained:%s" % (rule, cname, attr, fname), what=what)
+    for w in takers:
+        # one-by-one from the front inside a loop on the buffer's non-emptiness, the taken element is used
+        fn = ci.func(w.fn)
+        front = w.kind == "call:popleft" or (len(w.value.args) == 1 and is_const(w.value.args[0], 0))
+        loop = getattr(w.node, "_parent", None)
+        while loop is not None and not isinstance(loop, (ast.While, ast.FunctionDef)):
+            loop = getattr(loop, "_parent", None)
+        in_loop = isinstance(loop, ast.While) and any(is_self_attr(x, attr) for x in ast.walk(loop.test))
+        st = stmt_of(w.node)
+        bound = isinstance(st, ast.Assign) and len(st.targets) == 1 and isinstance(st.targets[0], ast.Name)
+        used = bound and fn is not None and len(uses_of(fn, st.targets[0].id)) >= 1
+        rep.check(rule, "%s.%s takes the held elements of self.%s one by one from the front and hands each on" % (cname, w.fn, attr),
+                  front and in_loop and used, w.site, key="%s:%s.%s:taken:%s" % (rule, cname, attr, w.fn), what=what)
 
 
 def decrypt_raises_only_cryptoerror(tree, rep, rule):
